@@ -143,6 +143,9 @@ func (p *Program) VerifyFunc(fc *FuncContract) (res *FuncResult) {
 			}
 		}
 	}
+	for _, v := range vars {
+		x.collectFloatLeaves(v, 0)
+	}
 	fr.params = vars
 	fr.entry = st.clone()
 	ri := &rootInfo{vars: vars, pkg: fnPkg(f), fn: f, fc: fc, entry: fr.entry}
@@ -510,6 +513,13 @@ func (r *FuncResult) SMTTextWith(o *Obligation, extra []*smt.Term, filter bool) 
 			}
 		}
 	}
+	if x.ufDecl["infax"] && !x.fp {
+		// inputs of float type are finite too
+		inf := x.b.Const("math_inf", "Real")
+		for _, c := range x.finiteInputs {
+			roots = append(roots, x.b.And(x.b.Cmp("<", c, inf), x.b.Cmp("<", x.b.Neg(inf), c)))
+		}
+	}
 	roots = append(roots, goal)
 	pr := x.b.NewPrinter()
 	sb.WriteString(pr.Script(roots))
@@ -760,5 +770,25 @@ func (x *Exec) frameObligations(fr *Frame, entry *CEnv, fc *FuncContract, r *ret
 			x.b.Eq(x.b.App("select", inner, h1, rv), x.b.App("select", inner, h0, rv)))
 		x.oblige("frame", fmt.Sprintf("frame(%s)@ret%d", k, ri), r.cond, x.b.Quant("forall", []*smt.Term{rv}, body), r.pos,
 			"assigns: memory that existed at entry is unchanged outside the listed locations ("+k+")", false)
+	}
+}
+
+// collectFloatLeaves records the float-typed leaves of an input value (real model:
+// they are finite, i.e. strictly between the symbolic -Inf and +Inf).
+func (x *Exec) collectFloatLeaves(v *Val, depth int) {
+	if v == nil || v.T == nil || depth > 2 || x.fp {
+		return
+	}
+	if isFloat(v.Typ) {
+		x.finiteInputs = append(x.finiteInputs, v.T)
+		return
+	}
+	if st, ok := v.Typ.Underlying().(*types.Struct); ok {
+		for i := 0; i < st.NumFields(); i++ {
+			ft := st.Field(i).Type()
+			if isFloat(ft) || isStructLike(ft) {
+				x.collectFloatLeaves(&Val{Typ: ft, T: x.fieldOf(v.T, v.Typ, i)}, depth+1)
+			}
+		}
 	}
 }
